@@ -497,5 +497,10 @@ def r9(F, R):
     c19.r2(F, R)
 
 
+def r10_init(F, R):
+    """"a run in which no step, hook or parse failed is never reported failed": the verdict counters start at 0 (= C12.R8)."""
+    from . import c12
+    c12.r8_init(F, R)
+
 RULES = [("R8", r8, _LIB), ("R1", r1, _LIB), ("R2", r2, _LIB), ("R3", r3, _LIB), ("R4", r4, _LIB), ("R5", r5, ["all", "libtest"]),
-         ("R6", r6, _LIB), ("R7", r7, _LIB), ("R9", r9, ["zoo:default"])]
+         ("R6", r6, _LIB), ("R7", r7, _LIB), ("R9", r9, ["zoo:default"]), ("R10", r10_init, _LIB)]
